@@ -26,7 +26,8 @@ CONSTANT AsCoded      \* TRUE: the reference lets direct-mode READ deliver DATA 
 Listed == {"List", "ListFile", "LList", "Edit", "SaveA", "SaveB", "Peek", "BSave", "Merge", "ChainMerge", "EnterLine"}
 \* further operations that read or alter program memory; the statement does not fix their outcome, NoLeak still applies
 Unlisted == {"Poke", "Bload", "DeleteLines", "Renum", "ReadData"}
-Loads == {"LoadP", "LoadB", "New"}
+\* ChainP: CHAIN "file" of the protected file (typed in direct mode, whatever is in memory): it is loaded like LOAD ,R and run
+Loads == {"LoadP", "LoadB", "New", "ChainP"}
 Ops == Listed \cup Unlisted \cup Loads \cup {"SaveP", "Run", "RunArm"}
 
 PeekClasses == {"code", "flag", "lowmem", "var", "video", "rom"}
@@ -69,12 +70,12 @@ RefFails(st, a) ==
 NextTrap(st, a, failed) ==
     IF failed THEN (CASE st.trap = "armed" -> "handling" [] st.trap = "handling" -> "armed" [] OTHER -> "off")
     ELSE IF a.op = "RunArm" THEN "armed"
-    ELSE IF a.op \in {"Run", "New", "LoadP", "LoadB"} THEN "off"
+    ELSE IF a.op \in {"Run", "New", "LoadP", "LoadB", "ChainP"} THEN "off"
     ELSE st.trap
 Effect(st, a, failed) ==
     LET s1 == [st EXCEPT !.trap = NextTrap(st, a, failed)]
     IN  IF failed THEN s1
-        ELSE CASE a.op = "LoadP" -> [s1 EXCEPT !.prog = "P", !.intact = TRUE, !.prot = TRUE]
+        ELSE CASE a.op \in {"LoadP", "ChainP"} -> [s1 EXCEPT !.prog = "P", !.intact = TRUE, !.prot = TRUE]
                [] a.op = "LoadB" -> [s1 EXCEPT !.prog = "U", !.intact = TRUE, !.prot = FALSE]
                [] a.op = "New"   -> [s1 EXCEPT !.prog = "none", !.intact = TRUE, !.prot = FALSE]
                [] a.op \in {"DeleteLines", "Renum"} -> [s1 EXCEPT !.intact = FALSE]
